@@ -146,9 +146,9 @@ Proof.
     destruct (st_add_mem_idx s id fact) as [s1 [e|]]; cbn [fst] in *; [exact H|].
     unfold store_call. cbv beta iota zeta.
     match goal with |- context [if ?c then _ else _] => destruct c end; exact H.
-  - unfold store_call. cbv beta iota zeta.
-    match goal with |- context [if ?c then _ else _] => destruct c end; [reflexivity|].
-    destruct (add_hook_err s fact); reflexivity.
+  - destruct (add_hook_err s fact); [reflexivity|].
+    unfold store_call. cbv beta iota zeta.
+    match goal with |- context [if ?c then _ else _] => destruct c end; reflexivity.
 Qed.
 
 Lemma st_clear_pending s : st_pending (fst (st_clear s)) = st_pending s.
